@@ -106,6 +106,72 @@ def run(ctx: Ctx):
     ctx.ob("R08.5", "no booking is withdrawn under Project.schedule", repo.func("Project.schedule"), not bad,
            "free slots stay free for good, booked slots stay booked" if not bad else f"bookings can be withdrawn: {bad}",
            key="R08.5|schedule|withdraw")
+    # ---------------------------------------------------------------- R08.7 deadline from successors (shared with C04 R04.2 backward)
+    from .c04 import backward_bound_rules
+    backward_bound_rules(ctx, "R08.7")
+    ctx.floor("R08.7", 6)
+    # ---------------------------------------------------------------- R08.8 deadline from enclosing containers
+    # the end constraint handed down the tree is the task's own end when it has one, else the container's
+    pce = repo.func("Project._propagateContainerEndDates")
+    inner = next((f for f in pce.nested.values() if f.name == "propagate_end_to_children"), None)
+    if inner is None:
+        raise AnchorMissing("_propagateContainerEndDates: nested propagate_end_to_children not found")
+    from ..order import local_resolver
+    res_in = local_resolver(inner.node)
+
+    def sel(e, env, d=0):
+        if isinstance(e, ast.Name):
+            if e.id in env:
+                return env[e.id]
+            vals = res_in(e)
+            return sel(vals[0], env, d + 1) if len(vals) == 1 and d < 4 else "?"
+        if isinstance(e, ast.Constant) and e.value is None:
+            return None
+        if isinstance(e, ast.IfExp):
+            t = sel(e.test, env, d)
+            if t == "?":
+                return "?"
+            return sel(e.body if t not in (None, False) else e.orelse, env, d)
+        if isinstance(e, ast.BoolOp):
+            vals = [sel(v, env, d) for v in e.values]
+            if "?" in vals:
+                return "?"
+            if isinstance(e.op, ast.Or):
+                return next((v for v in vals if v not in (None, False)), vals[-1])
+            return next((v for v in vals if v in (None, False)), vals[-1])
+        if isinstance(e, ast.Compare) and len(e.ops) == 1 and isinstance(e.ops[0], (ast.Is, ast.IsNot)) \
+                and isinstance(e.comparators[0], ast.Constant) and e.comparators[0].value is None:
+            v = sel(e.left, env, d)
+            if v == "?":
+                return "?"
+            return (v is None) if isinstance(e.ops[0], ast.Is) else (v is not None)
+        if isinstance(e, ast.Call) and norm(e.func) == "min" and len(e.args) == 2:
+            a, b = sel(e.args[0], env, d), sel(e.args[1], env, d)
+            if "?" in (a, b):
+                return "?"
+            return "min" if (a is not None and b is not None) else "?"
+        return "?"
+    effs = [n for n in own_nodes(inner) if isinstance(n, ast.Assign) and norm(n.targets[0]) == "effective_end"]
+    own = [n for n in own_nodes(inner) if isinstance(n, ast.Assign) and isinstance(n.value, ast.Call) and "'end'" in norm(n.value).replace('"', "'")
+           and isinstance(n.targets[0], ast.Name)]
+    cparam = inner.params[1] if len(inner.params) > 1 else None
+    if len(effs) != 1 or not own or cparam is None:
+        raise AnchorMissing("propagate_end_to_children: effective_end / own end / container parameter not found")
+    ownv = own[0].targets[0].id
+    want = {("T", "C"): ("T", "min"), (None, "C"): ("C",), ("T", None): ("T",)}
+    got = {k: sel(effs[0].value, {ownv: k[0], cparam: k[1]}) for k in want}
+    if "?" in got.values():
+        from ..model import Inconclusive
+        raise Inconclusive(f"propagate_end_to_children: {norm(effs[0])} is not a selection between the task's own end and the container's")
+    ok = all(got[k] in want[k] for k in want)
+    ctx.ob("R08.8", f"{inner.qual}: {norm(effs[0])[:70]}", (inner, effs[0]), ok,
+           "a task's own end wins over the end inherited from its container; without one the container's applies" if ok else
+           f"selection table {got}: a nested container's own (earlier) end is overridden by the outer container's, so its tasks end after "
+           "their deadline",
+           key="R08.8|propagate_end_to_children|effective end")
+    # ---------------------------------------------------------------- R08.9 calendar answers are not remembered under a lossy key
+    from .c02 import memo_rule
+    memo_rule(ctx, "R08.9")
     # ---------------------------------------------------------------- R08.6 task identity
     from .common import local_id_identity_rule
     local_id_identity_rule(ctx, "R08.6", ("core/project.py", "core/task_scenario.py", "core/task.py"),
